@@ -18,6 +18,7 @@ func init() {
 			"is first executed sequentially, then by G in {8,32,64} goroutines (quick {8,32}) on private argument objects, several goroutines running the same instance at the same time; events {goroutine, instance, call/return sequence numbers from one atomic counter, output digest} are recorded at the client boundary; " +
 			"oracles: every output equals the sequential output, zero race reports, configuration and package-constant fingerprints (incl. all 350 MB of tables) unchanged, bounded progress; GOMAXPROCS {1,2,4,16} x NumCPU {2,4,16} with H7 delays; a class is (operation kind, G, GOMAXPROCS, NumCPU); non-trivial = executed while at least one other operation was in flight",
 		HangIsViolation:  true,
+		CaseLimitS:       map[string]int{"quick": 600, "thorough": 2400},
 		Technique:        "Go race detector over a concurrent stress workload + per-operation differential against sequentially precomputed outputs (exact linearizability check for a stateless API) + state fingerprints + runtime deadlock detector/watchdog",
 		MinEvals:         map[string]int64{"quick": 500, "thorough": 12000},
 		MinClasses:       map[string]int64{"quick": 60, "thorough": 200},
@@ -31,7 +32,7 @@ func init() {
 			if tier == "quick" {
 				cfg := [][2]int{{4, 4}, {2, 1}, {6, 16}, {4, 2}}
 				for i, k := range cfg {
-					out = append(out, Child{Flavour: "race", NCPU: k[0], GOMAXPROCS: k[1], Shard: i, NShards: len(cfg), Params: map[string]string{"sched": fmt.Sprint(1 + i%2)}})
+					out = append(out, Child{TimeoutS: pick(tier, 900, 7200), Flavour: "race", NCPU: k[0], GOMAXPROCS: k[1], Shard: i, NShards: len(cfg), Params: map[string]string{"sched": fmt.Sprint(1 + i%2)}})
 				}
 				return out
 			}
@@ -39,7 +40,7 @@ func init() {
 			for _, w := range []int{2, 4, 16} {
 				for _, g := range []int{1, 2, 4, 16} {
 					for rep := 0; rep < 3; rep++ {
-						out = append(out, Child{Flavour: "race", NCPU: w, GOMAXPROCS: g, Shard: i, NShards: 36, Params: map[string]string{"sched": fmt.Sprint(i % 3)}})
+						out = append(out, Child{TimeoutS: pick(tier, 900, 7200), Flavour: "race", NCPU: w, GOMAXPROCS: g, Shard: i, NShards: 36, Params: map[string]string{"sched": fmt.Sprint(i % 3)}})
 						i++
 					}
 				}
